@@ -508,6 +508,17 @@ func (a *Actor) fill() {
 	a.Nonce = append([]byte(nil), a.Creds.RegistrationNonce...)
 }
 
+// Creds2 returns node credentials with a made-up server key, usable as an
+// encryption key source by an actor that never enrolled.
+func (a *Actor) Creds2() *types.NodeCredentials {
+	c := proto.Clone(a.Creds).(*types.NodeCredentials)
+	if len(c.ServerEncryptionPublicKeyBytes) == 0 {
+		p, _ := ecdh.X25519().GenerateKey(rand.Reader)
+		c.ServerEncryptionPublicKeyBytes, c.ServerEncryptionPublicKeyType = p.PublicKey().Bytes(), types.KEYTYPE_X25519
+	}
+	return c
+}
+
 // Info builds the honest request info of this actor (valid from now for the
 // default lifetime), which callers may then alter field by field.
 func (a *Actor) Info() *types.FetchNodeCredentialsInfo {
